@@ -17,12 +17,26 @@ import (
 )
 
 // engine "agg": the aggregation process under a virtual clock (properties C05, C06, C07)
-//   agg new <activeMs> <inactiveMs>
-//   agg rec <key> <flowType> <corr> <start> <end> <reason> <tcpStateHex> <stats> [p<n>]   -> ok | err
-//       (<corr> = the 12 correlate-field values in the order of corrFields; the token `~` at a position = the record
-//       does NOT carry that element, as a record of an exporter whose template lacks the field)
+//   agg new <activeMs> <inactiveMs> [cfg<n>] [http]
+//       cfg<n>: the SAME configuration with its lists written in another order (n seeds the permutation): the two
+//       entries of AntreaFlowEndSecondsElements swapped when n is odd (the fields are matched by "Source" /
+//       "Destination" in the name), StatsElements / AggregatedSourceStatsElements / AggregatedDestinationStatsElements
+//       under one common permutation (they are aligned by index), NonStatsElements shuffled. The order of these lists
+//       carries no meaning, so the model ignores the token.
+//       http: httpVals is one of the configured NonStatsElements; every record of such a session says what its
+//       httpVals element holds (token h=<hex> behind the statistics, h=- = the empty string) and the dumps show the
+//       stored value; in a session without `http` no record carries the element (an h= token is a bad-op there, as is
+//       a record without one in an http session).
+//   agg rec <key> <flowType> <corr> <start> <end> <reason> <tcpStateHex> <stats> [h=<hex>] [p<n>] [omit=<names>]   -> ok | err
+//       (<key> = 1..6: the five-tuples of aggKeys; 7..4000: synthesized IPv4 five-tuples, see aggKey.
+//       <corr> = the 12 correlate-field values in the order of corrFields; the token `~` at a position = the record
+//       does NOT carry that element, as a record of an exporter whose template lacks the field. The value of the
+//       IPv4 element destinationClusterIPv4 is the net.IP of the given bytes AS THEY ARE: 4 bytes, or 16 bytes - the
+//       form net.IPv4zero / net.ParseIP("10.0.0.1") have, which is what in-process callers hand over; a record that
+//       travels through `agg msg` is encoded, so the collector decodes the 4-byte form whatever was given.
+//       omit=<name,...> (last token): the record's template lacks these elements; `err` = the aggregation refused it)
 //   agg msg <rec_1> + <rec_2> + ... + <rec_k> [p<n>]                               -> ok | err
-//       (<rec_i> = the arguments of `agg rec` without p<n>; keys of one address family.) The k records travel the
+//       (<rec_i> = the arguments of `agg rec` without p<n> / omit=; keys of one address family.) The k records travel the
 //       production path: a template set and ONE data set holding all of them are encoded by the library's exporter
 //       code, decoded by a collecting process (decodePacket / decodeDataSet), and the decoded data message is what
 //       AggregateMsgByFlowKey gets - so the aggregation appends its statistics elements to the element slices
@@ -80,11 +94,33 @@ var aggKeys = map[int]fkey{
 	6: {"10.0.0.1", "10.0.0.2", 6, 1235, 5678, false},
 }
 
+// keys 7..aggMaxKey: synthesized IPv4 five-tuples (many flows in one session: an expiry scan with hundreds of due
+// items), 10.(k/256).(k%256).1:(10000+k) -> 10.200.0.1:443 over TCP
+const aggMaxKey = 4000
+
+func aggKey(k int) (fkey, bool) {
+	if f, ok := aggKeys[k]; ok {
+		return f, true
+	}
+	if k >= 7 && k <= aggMaxKey {
+		return fkey{fmt.Sprintf("10.%d.%d.1", k/256, k%256), "10.200.0.1", 6, uint16(10000 + k), 443, false}, true
+	}
+	return fkey{}, false
+}
+
+var aggKeyTokens map[fkey]int
+
 func keyToken(k intermediate.FlowKey) int {
-	for t, f := range aggKeys {
-		if f.src == k.SourceAddress && f.dst == k.DestinationAddress && f.proto == k.Protocol && f.sport == k.SourcePort && f.dport == k.DestinationPort {
-			return t
+	if aggKeyTokens == nil {
+		aggKeyTokens = map[fkey]int{}
+		for t := 1; t <= aggMaxKey; t++ {
+			f, _ := aggKey(t)
+			f.v6 = false
+			aggKeyTokens[f] = t
 		}
+	}
+	if t, ok := aggKeyTokens[fkey{k.SourceAddress, k.DestinationAddress, k.Protocol, k.SourcePort, k.DestinationPort, false}]; ok {
+		return t
 	}
 	return -1
 }
@@ -114,11 +150,29 @@ func absentMask(corr string) string {
 	return string(b)
 }
 
-// aggElems builds the elements of one record (the 8 arguments of `agg rec`); v6 = the key is an IPv6 5-tuple
+// the session was created with `http`: httpVals is a configured non-stats element and every record carries it
+var aggHTTP bool
+
+// aggElems builds the elements of one record (the 8 arguments of `agg rec`, and h=<hex> in an http session); v6 = the
+// key is an IPv6 5-tuple
 func aggElems(a []string) (out []entities.InfoElementWithValue, v6 bool, err error) {
+	var httpVals []byte
+	if aggHTTP {
+		if len(a) != 9 || !strings.HasPrefix(a[8], "h=") {
+			return nil, false, fmt.Errorf("an http session's record says what its httpVals holds")
+		}
+		if httpVals, err = unhex(a[8][2:]); err != nil {
+			return nil, false, err
+		}
+	} else if len(a) != 8 {
+		return nil, false, fmt.Errorf("bad record")
+	}
 	k, err := strconv.Atoi(a[0])
-	fk, ok := aggKeys[k]
-	if err != nil || !ok {
+	if err != nil {
+		return nil, false, fmt.Errorf("bad key")
+	}
+	fk, ok := aggKey(k)
+	if !ok {
 		return nil, false, fmt.Errorf("bad key")
 	}
 	ft, e0 := strconv.ParseUint(a[1], 10, 8)
@@ -174,6 +228,9 @@ func aggElems(a []string) (out []entities.InfoElementWithValue, v6 bool, err err
 	es = append(es, entities.NewUnsigned8InfoElement(regIE("flowEndReason"), uint8(reason)))
 	if !noTCP {
 		es = append(es, entities.NewStringInfoElement(regIE("tcpState"), string(tcp)))
+	}
+	if aggHTTP {
+		es = append(es, entities.NewStringInfoElement(regIE("httpVals"), string(httpVals)))
 	}
 	for i, name := range statsElems {
 		v, err := strconv.ParseUint(stats[i], 10, 64)
@@ -250,12 +307,16 @@ func aggDump(rec *intermediate.AggregationFlowRecord) string {
 		}
 		return strconv.Itoa(int(e.GetUnsigned8Value()))
 	}
-	return fmt.Sprintf("%s/%s/%s/%s/%s/%s/%s/%s/%s/%s/%s/%s/%s/%s/%s/%d/%s", u8tok(ft), strings.Join(corr, ","),
+	httpTok := aggAbsent // the stored record has no httpVals element
+	if h, _, ok := r.GetInfoElementWithValue("httpVals"); ok {
+		httpTok = "x" + hexs([]byte(h.GetStringValue()))
+	}
+	return fmt.Sprintf("%s/%s/%s/%s/%s/%s/%s/%s/%s/%s/%s/%s/%s/%s/%s/%d/%s/%s", u8tok(ft), strings.Join(corr, ","),
 		u32of(r, "flowStartSeconds"), u32of(r, "flowEndSeconds"), u8tok(reason), tcpTok,
 		u64s(r, statsElems), u64s(r, withSuffix(statsElems, "FromSourceNode")), u64s(r, withSuffix(statsElems, "FromDestinationNode")),
 		u32of(r, "flowEndSecondsFromSourceNode"), u32of(r, "flowEndSecondsFromDestinationNode"),
 		u64s(r, []string{"throughput", "reverseThroughput"}), u64s(r, []string{"throughputFromSourceNode", "reverseThroughputFromSourceNode"}),
-		u64s(r, []string{"throughputFromDestinationNode", "reverseThroughputFromDestinationNode"}), b(ready), retries, b(filled))
+		u64s(r, []string{"throughputFromDestinationNode", "reverseThroughputFromDestinationNode"}), b(ready), retries, b(filled), httpTok)
 }
 
 // aggMsg: `agg msg <rec_1> + ... + <rec_k> [p<n>]`, see the head of the file
@@ -272,11 +333,15 @@ func aggMsg(a []string) string {
 	var recs [][]entities.InfoElementWithValue
 	family := false
 	mask := ""
+	nargs := 8
+	if aggHTTP {
+		nargs = 9
+	}
 	for len(a) > 0 {
-		if len(a) < 8 || (len(a) > 8 && a[8] != "+") || len(a) == 9 {
+		if len(a) < nargs || (len(a) > nargs && a[nargs] != "+") || len(a) == nargs+1 {
 			return "bad-op"
 		}
-		es, v6, err := aggElems(a[:8])
+		es, v6, err := aggElems(a[:nargs])
 		if err != nil {
 			return "bad-op"
 		}
@@ -290,8 +355,8 @@ func aggMsg(a []string) string {
 			rand.New(rand.NewSource(perm)).Shuffle(len(es), func(i, j int) { es[i], es[j] = es[j], es[i] })
 		}
 		recs = append(recs, es)
-		if len(a) > 8 {
-			a = a[9:]
+		if len(a) > nargs {
+			a = a[nargs+1:]
 		} else {
 			a = nil
 		}
@@ -365,6 +430,20 @@ func engAgg(a []string) string {
 		return "bad-op"
 	}
 	if a[0] == "new" {
+		http := false
+		if n := len(a); n >= 4 && a[n-1] == "http" {
+			http = true
+			a = a[:n-1]
+		}
+		cfg := int64(-1)
+		if len(a) == 4 && strings.HasPrefix(a[3], "cfg") {
+			n, err := strconv.ParseUint(a[3][3:], 10, 63)
+			if err != nil {
+				return "bad-op"
+			}
+			cfg = int64(n)
+			a = a[:3]
+		}
 		if len(a) != 3 {
 			return "bad-op"
 		}
@@ -373,17 +452,38 @@ func engAgg(a []string) string {
 		if e1 != nil || e2 != nil {
 			return "bad-op"
 		}
+		nonStats := []string{"flowEndSeconds", "flowEndReason", "tcpState"}
+		if http {
+			nonStats = append(nonStats, "httpVals")
+		}
+		stats := append([]string{}, statsElems...)
+		srcStats := withSuffix(statsElems, "FromSourceNode")
+		dstStats := withSuffix(statsElems, "FromDestinationNode")
+		endSecs := []string{"flowEndSecondsFromSourceNode", "flowEndSecondsFromDestinationNode"}
+		if cfg >= 0 {
+			// the same configuration, its lists in another order
+			rng := rand.New(rand.NewSource(cfg))
+			if cfg%2 == 1 {
+				endSecs[0], endSecs[1] = endSecs[1], endSecs[0]
+			}
+			rng.Shuffle(len(stats), func(i, j int) {
+				stats[i], stats[j] = stats[j], stats[i]
+				srcStats[i], srcStats[j] = srcStats[j], srcStats[i]
+				dstStats[i], dstStats[j] = dstStats[j], dstStats[i]
+			})
+			rng.Shuffle(len(nonStats), func(i, j int) { nonStats[i], nonStats[j] = nonStats[j], nonStats[i] })
+		}
 		aggNow = 0
 		intermediate.VerifSetClock(func() time.Time { return aggBase.Add(time.Duration(aggNow) * time.Millisecond) })
 		ch := make(chan *entities.Message)
 		ap, err := intermediate.InitAggregationProcess(intermediate.AggregationInput{
 			MessageChan: ch, WorkerNum: 1, CorrelateFields: corrFields,
 			AggregateElements: &intermediate.AggregationElements{
-				NonStatsElements:                   []string{"flowEndSeconds", "flowEndReason", "tcpState"},
-				StatsElements:                      statsElems,
-				AggregatedSourceStatsElements:      withSuffix(statsElems, "FromSourceNode"),
-				AggregatedDestinationStatsElements: withSuffix(statsElems, "FromDestinationNode"),
-				AntreaFlowEndSecondsElements:       []string{"flowEndSecondsFromSourceNode", "flowEndSecondsFromDestinationNode"},
+				NonStatsElements:                   nonStats,
+				StatsElements:                      stats,
+				AggregatedSourceStatsElements:      srcStats,
+				AggregatedDestinationStatsElements: dstStats,
+				AntreaFlowEndSecondsElements:       endSecs,
 				ThroughputElements:                 []string{"throughput", "reverseThroughput"},
 				SourceThroughputElements:           []string{"throughputFromSourceNode", "reverseThroughputFromSourceNode"},
 				DestinationThroughputElements:      []string{"throughputFromDestinationNode", "reverseThroughputFromDestinationNode"},
@@ -394,6 +494,7 @@ func engAgg(a []string) string {
 			return "err"
 		}
 		aggProc = ap
+		aggHTTP = http
 		if aggCP != nil {
 			aggCP.CloseMsgChan() // ends the goroutine which drains the messages of the previous session's collector
 			aggCP = nil
@@ -409,10 +510,15 @@ func engAgg(a []string) string {
 		// optional trailing p<n>: the record lists its elements in another order (exporters need not agree on
 		// the order of the fields of their templates; the aggregation must find fields by name)
 		// optional last token omit=<name,name,...>: the record's template lacks these elements (any element the engine
-		// adds: key, flow type, times, end reason, tcpState, counters, correlate fields). Outside the model - used by
-		// crash-only sessions: whatever the aggregation answers, it must answer.
+		// adds: key, flow type, times, end reason, tcpState, counters, correlate fields). Outside the model of the
+		// record's VALUES - used by crash-only sessions (whatever the aggregation answers, it must answer) and by the
+		// scheduling check: a record the aggregation refuses (`err`) leaves the schedule alone.
+		nargs := 9
+		if aggHTTP {
+			nargs = 10
+		}
 		var omit map[string]bool
-		if n := len(a); n >= 10 && strings.HasPrefix(a[n-1], "omit=") {
+		if n := len(a); n >= nargs+1 && strings.HasPrefix(a[n-1], "omit=") {
 			omit = map[string]bool{}
 			for _, nm := range strings.Split(a[n-1][5:], ",") {
 				omit[nm] = true
@@ -420,15 +526,15 @@ func engAgg(a []string) string {
 			a = a[:n-1]
 		}
 		perm := int64(-1)
-		if len(a) == 10 && strings.HasPrefix(a[9], "p") {
-			n, err := strconv.ParseInt(a[9][1:], 10, 64)
+		if len(a) == nargs+1 && strings.HasPrefix(a[nargs], "p") {
+			n, err := strconv.ParseInt(a[nargs][1:], 10, 64)
 			if err != nil {
 				return "bad-op"
 			}
 			perm = n
-			a = a[:9]
+			a = a[:nargs]
 		}
-		if len(a) != 9 {
+		if len(a) != nargs {
 			return "bad-op"
 		}
 		rec, err := aggRecord(a[1:])
